@@ -108,7 +108,10 @@ def render_file(world, path):
             ("raw", l) for l in f["text"].split("\n")
         ]
     out = []
-    render_items(f["items"], f.get("lang", "c"), file_ids(world)[path], out)
+    ids = file_ids(world)
+    # a byte-identical copy (duplicate class) renders with the id of its original
+    fid = ids.get(f.get("copy_of"), ids[path])
+    render_items(f["items"], f.get("lang", "c"), fid, out)
     return out
 
 
